@@ -212,6 +212,19 @@ CHECKS = {
         note='Receive-side fragmentation only (socket.send is assumed to take the whole buffer); queues created before packets arrive.',
         technique='reference-codec oracle + exhaustive fragmentation sweep on a scripted socket; thread-level monitors under a deterministic scheduler',
         engine='codec-oracles', design='DESIGN.md §3 C18'),
+    'C20': dict(
+        level='exploration',
+        text=('RadioDriver.parse_uri against a reference parser over generated well-formed radio URIs (dongle ids and serials, '
+              'channels 0..125, three rates, 1..10 hex digits either case, rate_limit and other query options, every prefix of '
+              'omitted trailing fields) and malformed / foreign ones; RadioDriver.connect over RadioManager/_SharedRadio/'
+              'Crazyradio and ten fake USB dongles must transmit only on the selected dongle with exactly the parsed channel, '
+              'rate and address bytes; scan_interface over a fake radio must report exactly the present Crazyflies with URIs '
+              'that parse back; every scheme is offered to every driver class (hardware / network layers faked, audit hook '
+              'guarding against real sockets) and must be claimed by exactly one or by none; open_link on unusable URIs must '
+              'give connection_requested + one connection_failed, nothing escaping, and a healthy connect afterwards.'),
+        note='Fake layers stand in for USB, sockets and serial ports; the prrt driver is claimed-but-unavailable in this sandbox.',
+        technique='reference-parser oracle + settings monitor at a fake USB device + driver-dispatch census',
+        engine='detsched+radiosim', design='DESIGN.md §3 C20'),
 }
 
 PENDING_REASON = ('check not built yet in this work session (design in DESIGN.md §3); nothing is claimed for it '
